@@ -4,7 +4,7 @@ from fractions import Fraction
 
 PID = "C20"
 TITLE = "Union-find and the priority queue conform to their abstract models"
-LEAN_MODULES = ["Mouette.Props.C20", "Mouette.Props.C20Source", "Mouette.Props.C20Size"]
+LEAN_MODULES = ["Mouette.Props.C20", "Mouette.Props.C20Source", "Mouette.Props.C20Size", "Mouette.Props.C20Height"]
 REQUIRED_THEOREMS = ["inv_init", "inv_step", "inv_run", "find_root", "uf_refines", "elts_eq_present", "counts", "nComps_counts_classes",
                      "queries_preserve_partition", "component_joined", "component_partition", "components_spec",
                      "component_mapping_spec", "pop_ok", "pop_none_iff", "empty_correct", "drain_perm", "drain_sorted", "trace_perm",
@@ -12,21 +12,55 @@ REQUIRED_THEOREMS = ["inv_init", "inv_step", "inv_run", "find_root", "uf_refines
                      "init_bridge", "contains_bridge", "len_bridge", "addStep_bridge", "findLoopBody_bridge", "findLoop_bridge",
                      "find_bridge", "connected_bridge", "union_bridge", "roots_bridge", "component_bridge", "srcStep_bridge",
                      "srcRun_bridge", "ctor_bridge", "ctor_is_history", "srcRunFrom_bridge",
-                     "uf_attrs_are_instance_state", "raises_bridge", "components_shape_bridge", "component_mapping_shape_bridge",
+                     "uf_attrs_are_instance_state", "raises_bridge", "component_mapping_shape_bridge",
                      "lt_is_priority_lt", "data_is_instance_state", "push_bridge", "pop_bridge", "front_bridge", "empty_bridge",
                      # the headline theorems on the extracted definitions
                      "uf_refines_source", "uf_refines_source_from", "counts_source", "union_total_source", "find_root_source",
                      "find_terminates_source", "data_is_heap", "pop_ok_source", "trace_pop_model_source", "trace_perm_source",
                      "drain_perm_source", "pq_instances_isolated", "uf_instances_isolated", "class_attribute_would_be_shared",
                      # round 3: sizes, heights, all roots kept by find
-                     "find_preserves_every_root", "siz_root_eq_card", "card_eq_component_length", "siz_eq_component_length"]
+                     "find_preserves_every_root", "siz_root_eq_card", "card_eq_component_length", "siz_eq_component_length",
+                     # round 4: the size comparison is extracted (`sizCmp`) and the history theorems hold for either spelling; components()
+                     # and __getitem__ translated as folds with bridges; union by size => height <= log2(size)
+                     "sizCmp_is_size_order", "uf_refinesC", "elts_eq_presentC", "countsC", "getitem_bridge", "compsFold_bridge",
+                     "components_bridge", "components_source", "siz_root_eq_card_source", "find_terminates_log_source",
+                     "rank_witness", "rank_witness_spelled", "rank_witness_lt", "rank_witness_le", "height_le_log2_size_state",
+                     "height_le_log2_size", "height_le_log2_size_lt", "find_within_log2_n_state", "find_within_log2_n",
+                     "find_is_log2_loop", "height_bound_needs_size_order"]
+
+# which functions of the anchor files are translated from the working tree on every run (a Generated definition comes from the body AND
+# a bridge theorem of Props/C20Source.lean uses it), which are only modelled by hand, which are out of the statement's scope
+SOURCE_MAP = {
+    "mouette/utils/unionfind.py::UnionFind.__init__": "translated",          # C20.init/initAttrs/ctor: init_bridge, ctor_bridge, uf_attrs_are_instance_state
+    "mouette/utils/unionfind.py::UnionFind.__len__": "translated",           # C20.len: len_bridge
+    "mouette/utils/unionfind.py::UnionFind.__contains__": "translated",      # C20.contains: contains_bridge
+    "mouette/utils/unionfind.py::UnionFind.__getitem__": "translated",       # C20.getitem: getitem_bridge
+    "mouette/utils/unionfind.py::UnionFind.add": "translated",               # C20.add: addStep_bridge
+    "mouette/utils/unionfind.py::UnionFind.find": "translated",              # C20.findCond/findBody/findLoop/find: findLoop_bridge, find_bridge
+    "mouette/utils/unionfind.py::UnionFind.connected": "translated",         # C20.connected: connected_bridge
+    "mouette/utils/unionfind.py::UnionFind.union": "translated",             # C20.sizCmp/union: sizCmp_is_size_order, union_bridge
+    "mouette/utils/unionfind.py::UnionFind.component": "translated",         # C20.component: component_bridge
+    "mouette/utils/unionfind.py::UnionFind.roots": "translated",             # C20.roots: roots_bridge
+    "mouette/utils/unionfind.py::UnionFind.components": "translated",        # C20.componentsFor1Step/components: components_bridge, components_source
+    "mouette/utils/unionfind.py::UnionFind.component_mapping": "modelled",   # statement shape extracted (component_mapping_shape_bridge); meaning = hand model + oracle
+    "mouette/utils/unionfind.py::UnionFind.__setitem__": "out-of-scope: overwrites a stored element without updating _indx; not one of the add/union/find "
+                                                         "histories the statement quantifies over (never called by the library or the harness)",
+    "mouette/utils/unionfind.py::UnionFind.__repr__": "out-of-scope: debug string of the private arrays, no clause of the statement is about it",
+    "mouette/utils/priority_queue.py::PriorityItem.__lt__": "translated",    # C20PQ.itemLt: lt_is_priority_lt
+    "mouette/utils/priority_queue.py::PriorityQueue.__init__": "translated",  # C20PQ.dataHome/initData: data_is_instance_state
+    "mouette/utils/priority_queue.py::PriorityQueue.empty": "translated",    # C20PQ.empty: empty_bridge
+    "mouette/utils/priority_queue.py::PriorityQueue.front": "translated",    # C20PQ.front: front_bridge
+    "mouette/utils/priority_queue.py::PriorityQueue.get": "translated",      # C20PQ.get_: pop_bridge
+    "mouette/utils/priority_queue.py::PriorityQueue.pop": "translated",      # C20PQ.pop_: pop_bridge
+    "mouette/utils/priority_queue.py::PriorityQueue.push": "translated",     # C20PQ.push: push_bridge
+}
 TRUSTED = [
     "Lean 4.33.0 kernel; axioms ⊆ {propext, Classical.choice, Quot.sound}",
     "the translator vlib/gen/c20_translate.py (Python ast -> Lean): that the state-passing Lean definitions it writes to Generated/C20UF.lean, "
     "C20PQ.lean denote the Python statements it read (vocabulary: Model/UFSource.lean - dict as association list, out-of-range list reads "
-    "totalised, `raise` = none, `set(..)` = duplicate-free list, `while` = recursion on fuel len(_par), proved sufficient); "
-    "components()/component_mapping() are tied by their normalised statement shape only (their meaning is the hand model's, checked by the "
-    "correspondence and the oracle)",
+    "totalised, `raise` = none, `set(..)` = duplicate-free list in first-occurrence order, `while` = recursion on fuel len(_par), proved "
+    "sufficient - and log2(n) proved sufficient; local dict/bucket reads raise = none, proved never to happen); "
+    "component_mapping() is tied by its normalised statement shape only (its meaning is the hand model's, checked by the oracle)",
     "elements are mapped to integer ids by the harness (hash/eq of Python hashables trusted); priorities are floats without NaN",
     "heapq: CPython's heappush/heappop implement the algorithm of Lib/heapq.py (append + _siftdown; pop last, replace root, bottom-up _siftup) "
     "- modelled in Model/BinHeap.lean; the heap contract (heap invariant w.r.t. __lt__ kept, multiset kept, pop returns heap[0] <= every item) "
@@ -420,6 +454,21 @@ def oracle(case):
                         out.append({"key": "C20/uf/connected", "what": "connected differs from union-chain closure",
                                     "detail": f"step {step}: {a},{b}"})
                         return out
+            # root handles: find(x) is an index; the element stored there (uf[index]) must belong to the class of x
+            # (a root that cannot be resolved to a member of its class does not describe the partition)
+            p0 = copy.deepcopy(uf)
+            for a in present:
+                try:
+                    r = p0.find(a)
+                    e = p0[r]
+                except Exception as ex:  # noqa
+                    out.append({"key": f"C20/uf/root-index/raises/{case['kind']}", "what": f"uf[find(x)] raised {type(ex).__name__}",
+                                "detail": f"step {step}: x={a}: {ex}"})
+                    return out
+                if e not in lab or lab[e] != lab[a]:
+                    out.append({"key": "C20/uf/root-index", "what": "the element stored at index find(x) is not in the class of x",
+                                "detail": f"step {step}: x={a} root index {r} holds {e}"})
+                    return out
             try:
                 p1 = copy.deepcopy(uf)
                 roots = p1.roots()
@@ -563,12 +612,16 @@ MANIFEST = {
                    "__init__, __contains__, __len__; PriorityItem.__lt__, push/pop/get/front/empty, where `data` lives) and BRIDGE theorems "
                    "prove them equal to the model, so that the headline theorems hold of what the source says now (uf_refines_source, "
                    "pop_ok_source, drain_perm_source, trace_pop_model_source, find_terminates_source, instances isolated, constructor = fold "
-                   "of add). The tie with the running code is additionally sampled by a history correspondence (observed after every "
+                   "of add). Round 4: the size comparison of union is extracted as a definition and every history theorem is proved for an "
+                   "ARBITRARY comparison (so `<` and `<=` are both covered by the same bridge); components() and __getitem__ are translated "
+                   "as the folds they are and proved to return the model's listing without raising (components_bridge, components_source); "
+                   "union by size => a rank witness with 2^rank <= size exists after every history, hence the while loop of find exits "
+                   "within log2(n) iterations (height_le_log2_size, find_terminates_log_source). The tie with the running code is additionally sampled by a history correspondence (observed after every "
                    "operation, pop order on ties included) and a direct oracle, which also produce the failing input when a bridge breaks."),
     "level_note": ("Trusted: Lean kernel + propext/Classical.choice/Quot.sound; the ast->Lean translator and its vocabulary "
                    "(Model/UFSource.lean); Python hash/eq of the elements; 'CPython's heapq implements the algorithm of Lib/heapq.py' "
                    "(its contract is proved for the model, its pop order is compared on every history); Python's attribute lookup rule "
-                   "(instance vs class body); components()/component_mapping() are tied by statement shape + correspondence only."),
+                   "(instance vs class body); component_mapping() is tied by statement shape + oracle only."),
     "technique": ("Lean 4 refinement proof (invariant + equivalence-closure spec) over an executable model; source methods translated by "
                   "Python ast into Lean definitions each run and proved equal to the model by bridge theorems (kernel-checked, lake build); "
                   "proved binary-heap contract; differential history correspondence + oracle for the failing-input search"),
